@@ -103,8 +103,13 @@ class C15:
             for fi, form in enumerate(forms):
                 if only is not None and [ti, fi] != only:
                     continue
-                ins = " " + form + ("\n" if needs_nl(form) else " ")
-                subs.append({"flags": flags, "text": text[:tk.start] + ins + text[tk.start:]})
+                if form.strip(" \t\r\n") == "" and ti > 0 and toks[ti - 1].kind != "COMMENT":
+                    # pure white space also directly behind the previous token (no blank of ours in between)
+                    at = toks[ti - 1].end
+                    subs.append({"flags": flags, "text": text[:at] + form + text[at:]})
+                else:
+                    ins = " " + form + ("\n" if needs_nl(form) else " ")
+                    subs.append({"flags": flags, "text": text[:tk.start] + ins + text[tk.start:]})
                 meta.append((ti, fi))
         r, res = run_subs(get_ex, schema, subs, printit=False)
         base = res[0]["parse"]
